@@ -636,7 +636,8 @@ def gen_classes(repo, report, module_funcs):
             srel = classes[sowner]['rel']
             if sfn.decorator_list:
                 _bad(srel, sfn, f'{sowner}.set_random_state is decorated')
-            if not classes[sowner]['vrs_ok']:
+            if not classes[sowner]['vrs_ok'] and any(isinstance(n, ast.Name) and n.id == 'validate_random_state'
+                                                     for n in ast.walk(sfn)):
                 _bad(srel, sfn, '`validate_random_state` is not (only) `from copulas.utils import validate_random_state` here')
             p_self, p_rs = _plain_params(srel, sfn, ['self', 'random_state'])
             tx = FnTx(srel, sfn, 'plain', {p_self: 'self', p_rs: 'val'}, module_funcs)
